@@ -176,7 +176,10 @@ def layout_case(draw):
     return dict(kind='layout', n=n, bb=bb, antes=antes, blinds=blinds,
                 stacks=stacks, reps={k: [h, r] for k, (h, r) in reps.items()},
                 seed=draw(st.integers(0, 10 ** 6)), game=game,
-                route=draw(st.sampled_from(['create_state', 'game_call'])))
+                route=draw(st.sampled_from(['create_state', 'game_call',
+                                            'game_reuse'])),
+                chip=draw(st.sampled_from(['int', 'int', 'float', 'frac',
+                                           'dec'])))
 
 
 CARD_TEXT = [r + s for r in '23456789TJQKA' for s in 'cdhs']
@@ -256,8 +259,21 @@ def strategy(tier):
                      helper_case(), hands_case(), card_text_case())
 
 
+def _conv(v, chip):
+    """The same numbers in another numeric type."""
+    f = {'int': int, 'float': float, 'frac': Fraction,
+         'dec': Decimal}[chip or 'int']
+    if isinstance(v, dict):
+        return {k: f(x) for k, x in v.items()}
+    if isinstance(v, (list, tuple)):
+        return type(v)(f(x) for x in v)
+    if hasattr(v, '__next__'):
+        return (f(x) for x in v)
+    return f(v)
+
+
 def _state(antes, blinds, stacks, n, bb, seed, autos=FULL, game='NT',
-           route='create_state'):
+           route='create_state', chip='int', warm=None):
     """Any of the twelve predefined variants, through ``create_state`` or
     through a game object that is then called with (stacks, player count)."""
     from ..engine import GAMES
@@ -271,9 +287,27 @@ def _state(antes, blinds, stacks, n, bb, seed, autos=FULL, game='NT',
     else:
         # stud: antes + bring-in, no blinds
         head = (autos, False, antes, max(1, bb // 2), bb, 2 * bb)
+    head = tuple(_conv(x, chip) if i >= 2 else x
+                 for i, x in enumerate(head))
+    stacks = _conv(stacks, chip)
     if route == 'create_state':
         return cls.create_state(*head, stacks, n, mode=Mode.CASH_GAME)
-    return cls(*head, mode=Mode.CASH_GAME)(stacks, n)
+    g = cls(*head, mode=Mode.CASH_GAME)
+    if route == 'game_reuse' and warm is not None:
+        # a long-lived game object: it has already created a state for this
+        # player count with *other* forced bets, then the public layout
+        # attributes were reassigned (blind level up)
+        wa, wb = warm
+        real_a, real_b = g.raw_antes, g.raw_blinds_or_straddles
+        g.raw_antes, g.raw_blinds_or_straddles = _conv(wa, chip), _conv(
+            wb, chip)
+        try:
+            g(_conv([500] * n, chip), n)
+        except ValueError:
+            pass
+        g.raw_antes, g.raw_blinds_or_straddles = real_a, real_b
+        random.seed(seed)      # the warm-up shuffled a deck of its own
+    return g(stacks, n)
 
 
 def check(case, stats):
@@ -286,11 +320,19 @@ def check(case, stats):
         if kind == 'layout':
             n, bb = case['n'], case['bb']
             gk = dict(game=case.get('game', 'NT'),
-                      route=case.get('route', 'create_state'))
+                      route=case.get('route', 'create_state'),
+                      chip=case.get('chip', 'int'))
+            if gk['route'] == 'game_reuse':
+                stud_ = gk['game'] in ('F7S', 'F7S8', 'FR')
+                gk['warm'] = ([2] * n, [0] * n if stud_
+                              else [bb, 2 * bb] + [0] * (n - 2))
+            stats.count('chip:' + gk['chip'])
+            stats.count('route:' + gk['route'])
             stats.count('game:' + gk['game'])
             try:
                 a = _state(case['antes'], case['blinds'], case['stacks'], n,
-                           bb, case['seed'], **dict(gk, route='create_state'))
+                           bb, case['seed'],
+                           **dict(gk, route='create_state', warm=None))
             except ValueError:
                 stats.count('layout_refused_by_engine')
                 return []
@@ -310,6 +352,19 @@ def check(case, stats):
                                ('blinds_or_straddles', case['blinds']),
                                ('starting_stacks', case['stacks'])):
                 got = list(getattr(b, name))
+                want = list(_conv(list(want), gk['chip']))
+                # (an entry that was left out is a plain 0 whatever the
+                # chip type - exact in every type, not judged)
+                if got == want and [type(x) for x in got if x] != [
+                        type(x) for x in list(getattr(a, name)) if x]:
+                    how = case['reps'][
+                        'blinds' if name == 'blinds_or_straddles' else
+                        'stacks' if name == 'starting_stacks' else name][0]
+                    out.append(V(ID, 'layout_number_type', how,
+                                 f'{name}: {case["reps"]} as {gk["chip"]} ->'
+                                 f' {got!r}, explicit list gives'
+                                 f' {list(getattr(a, name))!r}'))
+                    return out
                 if got != list(want):
                     how = case['reps'][
                         'blinds' if name == 'blinds_or_straddles' else
